@@ -136,8 +136,8 @@ def run_model(spec, ses):
     sign = cm.o.obj[0]
     if not cp.qmat and not cp.pcones and not Sdefs:
         P = cp.constraints(vs)
-        sp, vp = ses.optimum(P, vs[0], label=name + '/optP')
-        so, vo = ses.optimum(S, vs[0], label=name + '/optS')
+        sp, vp = ses.optimum(P, vs[0], label=name + '/optP', ints=cp.int_vars(vs))
+        so, vo = ses.optimum(S, vs[0], label=name + '/optS', ints=cp.int_vars(vs))
         ses.stats.obligations += 1
         ses.stats.kinds['exact-optimum'] = ses.stats.kinds.get('exact-optimum', 0) + 1
         if 'unknown' in (sp, so):
@@ -220,8 +220,8 @@ def run_milp(case, ses):
     S = []
     for row in cm.rows():
         S += hold_terms(row, env, z3)
-    so, vo = ses.optimum(S + env.defs, vs[0], label=name + '/optS')
-    sp, vp = ses.optimum(P, vs[0], label=name + '/optP')
+    so, vo = ses.optimum(S + env.defs, vs[0], label=name + '/optS', ints=cm.cp.int_vars(vs))
+    sp, vp = ses.optimum(P, vs[0], label=name + '/optP', ints=cm.cp.int_vars(vs))
     with quiet():
         try:
             cm.r.m.solve(display=False)
